@@ -287,3 +287,58 @@ func vpH_C02_seen_sync() {
 	vpCover(oneRPC && ids[0] == ids[1], "two copies of one ID in the same RPC")
 	vpCover(want == 2, "both IDs arrived")
 }
+
+// applicable: the validators that judge a message are EXACTLY the default validators (in registration order) plus the
+// validator of the message's own topic, and the list computed for one message is not disturbed by computing the list
+// for a later message of another topic (a message waits in the validation queue with its list while others are
+// pushed). The number of default validators (0..3: the backing arrays that append produces have spare capacity for 3)
+// is a solver variable; validators are installed the way the options install them (append).
+func vpH_C04_applicable() {
+	vpOpt("gocap", 1) // (capacities as the gc runtime grows them: spare capacity, hence possible aliasing, exactly where it exists natively)
+	nd := vpNewNode("self", vpNodeCfg{router: "floodsub"})
+	ps := nd.ps
+	mk := func(topic string) *validatorImpl {
+		v, err := ps.val.makeValidator(&addValReq{topic: topic, validate: func(ctx context.Context, p peer.ID, m *Message) ValidationResult {
+			return ValidationAccept
+		}}, ps.logger)
+		vpAssume(err == nil)
+		return v
+	}
+	nDef := vpInt("default_validators", 0, 3)
+	defs := []*validatorImpl{mk(""), mk(""), mk("")}
+	for i := 0; i < 3; i++ {
+		if i < nDef {
+			ps.val.defaultVals = append(ps.val.defaultVals, defs[i])
+		}
+	}
+	va, vb := mk("ta"), mk("tb")
+	ps.val.topicVals["ta"] = va
+	if vpBool("second_topic_has_a_validator") {
+		ps.val.topicVals["tb"] = vb
+	}
+	ma, mb, mc := vpMkMsg("A", "1", "ta"), vpMkMsg("A", "2", "tb"), vpMkMsg("A", "3", "tc")
+	la := ps.val.getValidators(ma) // (queued with the message)
+	lb := ps.val.getValidators(mb)
+	lc := ps.val.getValidators(mc)
+	check := func(l []*validatorImpl, own *validatorImpl, has bool, what string) {
+		want := nDef
+		if has {
+			want++
+		}
+		vpAssert(len(l) == want, "a message is judged by all default validators plus its own topic's validator, nothing else ("+what+")")
+		for i := 0; i < 3; i++ {
+			if i < nDef && i < len(l) {
+				vpAssert(l[i] == defs[i], "default validators come first, in registration order ("+what+")")
+			}
+		}
+		if has && len(l) == want {
+			vpAssert(l[nDef] == own, "the topic validator that judges a message is the one registered for the message's own topic, also after lists for other topics were computed ("+what+")")
+		}
+	}
+	_, hasB := ps.val.topicVals["tb"]
+	check(la, va, true, "first message")
+	check(lb, vb, hasB, "second message")
+	check(lc, nil, false, "topic without validator")
+	vpCover(nDef == 3 && hasB, "three default validators and two topic validators")
+	vpCover(nDef == 0, "no default validator")
+}
